@@ -19,7 +19,7 @@ REPO = os.environ.get("DSW_VERIF_REPO", "/repo")
 
 # fixed run counts per tier (so that two invocations with the same VERIF_SEED give the same evidence apart from wall_s)
 RUNS = {
-    "C04": {"quick": 9600, "thorough": 96000},
+    "C04": {"quick": 6400, "thorough": 96000},
     "C06": {"quick": 12800, "thorough": 128000},
     "C07": {"quick": 3200, "thorough": 32000},
     "C08": {"quick": 9600, "thorough": 96000},
@@ -96,7 +96,7 @@ def signature(v):
 
 
 def run_blocks(prop, tier, first_seed, n_runs, workers, tmpdir, plain=False, hashseed_base=0, block=None):
-    block = block or max(10, min(200, n_runs // (workers * 4) or 1))
+    block = block or max(10, min(120, n_runs // (workers * 5) or 1))
     jobs = []
     i = 0
     while i < n_runs:
